@@ -90,13 +90,42 @@ def unknown(reason, *extra, loc=None):
   return T('unknown', reason, *extra, loc=loc)
 
 
+_NEG_EXT = ('jax.numpy.logical_not', 'jax.numpy.invert', 'jax.numpy.bitwise_not', 'numpy.logical_not', 'numpy.invert')
+
+
+def strip_negation(c):
+  """(c', flipped): c == (not c') when flipped.  Recognises `not x`, `~x`, jnp.logical_not(x), `a != b` and
+  jnp.not_equal(a, b) (-> a == b), repeatedly."""
+  flipped = False
+  while True:
+    if c.op == 'un' and c.args[0] in ('not', '~'):
+      c, flipped = c.args[1], not flipped
+      continue
+    if c.op == 'call' and c.args[0].op == 'ext' and c.args[0].args[0] in _NEG_EXT and len(c.args[1]) == 1 and not c.args[2]:
+      c, flipped = c.args[1][0], not flipped
+      continue
+    if c.op == 'cmp' and c.args[0] == '!=' and len(c.args) == 3:
+      c, flipped = T('cmp', '==', c.args[1], c.args[2]), not flipped
+      continue
+    if c.op == 'cmp' and c.args[0] == 'is not' and len(c.args) == 3:
+      c, flipped = T('cmp', 'is', c.args[1], c.args[2]), not flipped
+      continue
+    if c.op == 'call' and c.args[0].op == 'ext' and c.args[0].args[0] in ('jax.numpy.not_equal', 'numpy.not_equal') and len(c.args[1]) == 2 and not c.args[2]:
+      c, flipped = T('cmp', '==', c.args[1][0], c.args[1][1]), not flipped
+      continue
+    return c, flipped
+
+
 def ite(c, a, b, loc=None):
   if a is b:
     return a
   if is_const(c):
     return a if cval(c) else b
-  if c.op == 'un' and c.args[0] == 'not':      # canonical polarity: ite(not c, a, b) == ite(c, b, a)
-    return ite(c.args[1], b, a, loc=loc)
+  c2, flipped = strip_negation(c)       # canonical polarity: ite(not c, a, b) == ite(c, b, a)
+  if flipped:
+    if is_const(c2):
+      return b if cval(c2) else a
+    return T('ite', c2, b, a, loc=loc)
   return T('ite', c, a, b, loc=loc)
 
 
